@@ -628,7 +628,7 @@ func (r *report) writeEvidence(viol int) {
 
 func evidenceAssumptions(r *report) []string {
 	a := []string{
-		"z3 4.8.12 (cvc5 1.0.3 --solve-bv-as-int=sum and z3 5.1.0 as fall-backs) decide the queries correctly",
+		"z3 5.1.0 (primary; cvc5 1.0.3 --solve-bv-as-int=sum and z3 4.8.12 as fall-backs for unknown/timeout) decide the queries correctly",
 		"the gosym interpreter implements go/ssa semantics faithfully (cross-checked on every run by replaying sampled paths and every counterexample against the native build)",
 		"environment models as listed in DESIGN.md 2.5 (logging = no-op, fmt/regexp/reflect/encoding-binary/sync/time models)",
 		"claims hold only within the bounds of each harness (input sizes, enumeration caps, instruction budget) recorded above",
